@@ -47,12 +47,9 @@ def structural_facts(B, bb):
                     src = s['rv']['place']
             if src is None:
                 continue
-            ty = B.local_ty(src['l']) if not src['p'] else ''
-            if ty.startswith('std::option::Option<'):
-                names = {0: 'None', 1: 'Some'}
-            elif ty.startswith('std::result::Result<'):
-                names = {0: 'Ok', 1: 'Err'}
-            else:
+            vn = t.get('variants') or {}
+            names = {int(k): v for k, v in vn.items() if k != '__enum'}
+            if not names or vn.get('__enum', '').startswith('std::ops::ControlFlow'):
                 continue
             desc = sdesc_place(B, src)
             for v, tb in t['targets']:
